@@ -401,6 +401,9 @@ impl<'a> Data<'a> for Vec<u64> {
     fn cast_ref_mut_u64(&mut self) -> &mut Vec<u64> {
         self
     }
+    fn to_mixed(&self) -> Vec<Val<'a>> {
+        self.iter().map(|i| Val::Integer(*i as i64)).collect()
+    }
 }
 
 impl<'a> Data<'a> for Vec<u32> {
@@ -409,6 +412,9 @@ impl<'a> Data<'a> for Vec<u32> {
     }
     fn cast_ref_mut_u32(&mut self) -> &mut Vec<u32> {
         self
+    }
+    fn to_mixed(&self) -> Vec<Val<'a>> {
+        self.iter().map(|i| Val::Integer(*i as i64)).collect()
     }
 }
 
@@ -419,6 +425,9 @@ impl<'a> Data<'a> for Vec<u16> {
     fn cast_ref_mut_u16(&mut self) -> &mut Vec<u16> {
         self
     }
+    fn to_mixed(&self) -> Vec<Val<'a>> {
+        self.iter().map(|i| Val::Integer(*i as i64)).collect()
+    }
 }
 
 impl<'a> Data<'a> for Vec<u8> {
@@ -427,6 +436,9 @@ impl<'a> Data<'a> for Vec<u8> {
     }
     fn cast_ref_mut_u8(&mut self) -> &mut Vec<u8> {
         self
+    }
+    fn to_mixed(&self) -> Vec<Val<'a>> {
+        self.iter().map(|i| Val::Integer(*i as i64)).collect()
     }
 }
 
